@@ -59,8 +59,7 @@ def make(i, base_seed, tier):
     per = 2 if tier == "quick" else 16
     if j < 145 * per:
         ln = j // per
-        # routed only for single-frame messages: fragmented + routed is the known finding KF-C05-frag-routed
-        return {"seed": seed, "kind": "air", "routed": (j % per) % 2 == 1 and ln <= 24, "faults": [],
+        return {"seed": seed, "kind": "air", "routed": (j % per) % 2 == 1, "faults": [],
                 "msgs": [{"len": ln, "type": rng.choice([0, 1, 65, 127, rng.randint(0, 127)]), "seed": rng.getrandbits(20),
                           "fid": rng.choice([0, 1, 0xFFFE, 0xFFFF, rng.getrandbits(16)]), "strtype": rng.random() < 0.1}],
                 "toggle": rng.random() < 0.3}
